@@ -76,6 +76,11 @@ class C04Oracle:
     # ------------------------------------------------------------------ snapshots
     def before(self, info):
         l = self.l
+        self.pre_tell = None
+        if info["op"] == "tell" and l._tri is not None:
+            # which pending points subdivide which simplex before the tell
+            self.pre_tell = {"simps": set(l._tri.simplices),
+                             "bound": {sx: [tuple(map(float, v)) for v in st.vertices] for sx, st in l._subtriangulations.items()}}
         if not info["op"].startswith("ask"):
             self.pre = None
             return
@@ -113,6 +118,7 @@ class C04Oracle:
                     out.append(("loss_is_max", f"loss() = {got!r}, largest simplex loss = {want!r}"))
                 self.count("loss_checked")
             out += self.check_subs()
+            out += self.check_pending_bound()
         if info["op"].startswith("ask") and self.pre is not None and info.get("result") is not None:
             out += self.check_ask(info)
         return out
@@ -155,6 +161,47 @@ class C04Oracle:
                     out.append(("subloss_proportional", f"sub-simplex {key} queued with {got!r}, its share of the "
                                                         f"simplex loss {L!r} by volume is {want!r}"))
                     break
+        return out
+
+    def check_pending_bound(self):
+        """after a tell: a pending point that subdivided a simplex the tell removed subdivides EVERY new simplex it lies in
+        (closed, exact test) - the new simplex has a sub-triangulation with the point among its vertices"""
+        l = self.l
+        tri = l._tri
+        out = []
+        pt = getattr(self, "pre_tell", None)
+        if not pt or tri is None:
+            return out
+        now = set(tri.simplices)
+        deleted, added = pt["simps"] - now, now - pt["simps"]
+        unbound = {p for sx in deleted for p in pt["bound"].get(sx, []) if p in l.pending_points}
+        if not unbound or not added:
+            return out
+        for sx in added:
+            corners = [F(tri.vertices[int(i)]) for i in sx]
+            V = signed_vol(corners)
+            if V == 0:
+                continue
+            for p in unbound:
+                fp = F(p)
+                if any(fp == c for c in corners):
+                    continue
+                inside = True
+                for i in range(len(corners)):
+                    w = signed_vol(corners[:i] + [fp] + corners[i + 1:])
+                    if (w > 0) != (V > 0) and w != 0:
+                        inside = False
+                        break
+                if not inside:
+                    continue
+                self.count("rebound_pending_in_new_simplex_checked")
+                st = l._subtriangulations.get(sx)
+                if st is None or p not in {tuple(map(float, v)) for v in st.vertices}:
+                    out.append(("pending_subdivides_every_simplex",
+                                f"pending point {p} subdivided a simplex removed by this tell and lies in the new simplex "
+                                f"{tuple(map(int, sx))} (exact test) but "
+                                f"{'that simplex has no sub-triangulation' if st is None else 'is not a vertex of its sub-triangulation'}"))
+                    return out
         return out
 
     def check_ask(self, info):
